@@ -97,7 +97,9 @@ func vServerSession(tok, payload []byte, key [4]byte) []byte {
 	wire = append(wire, vMaskedFrame(10, true, key, payload)...) // an unsolicited pong with a payload
 	wire = append(wire, vMaskedFrame(1, false, key, payload[:1])...)
 	wire = append(wire, vMaskedFrame(0, true, key, payload[1:])...)
-	conn := &vHalf{in: wire}
+	// (the transport hands the bytes over in pieces of at most 64: the 125-byte ping payload does
+	// not arrive in one Read)
+	conn := &vHalf{in: wire, chunk: 64}
 	data, op, err := wsutil.ReadClientData(conn)
 	if err != nil {
 		return vSessProblem(obs, "read-error")
